@@ -9,7 +9,7 @@ cd $W && git checkout -q -- . && git clean -fdq -e target
 cp $D/${DEMO:-demo.rs} $W/$DEST
 for pair in ${EXTRA:-}; do mkdir -p $(dirname $W/${pair##*=}); cp $D/${pair%%=*} $W/${pair##*=}; done
 if [ -n "${MODLINE:-}" ]; then echo "$MODLINE" >> $W/$MODFILE; fi
-run() { (cd $W && CARGO_NET_OFFLINE=true timeout 1500 cargo test --offline "$@" 2>&1 | grep -E "^test result|^test .*(ok|FAILED)$|panicked|error(\[|:)" | head -12); }
+run() { (cd $W && CARGO_NET_OFFLINE=true timeout 1500 cargo test --offline "$@" 2>&1 | grep -a -E "^test result|^test .*(ok|FAILED)$|panicked|error(\[|:)" | head -12); }
 echo "--- without patch" > $D/confirmed.txt; run "$@" >> $D/confirmed.txt
 git -C $W apply $D/patch.diff || { echo "patch does not apply in worktree" >> $D/confirmed.txt; }
 echo "--- with patch" >> $D/confirmed.txt; run "$@" >> $D/confirmed.txt
